@@ -2,7 +2,7 @@
    Statements only; proofs in ProofsCore.v / ProofsWrap.v.  The code-shaped function is
    Store.wrap_model (utils.wrap: mask with 2^n-1, then OR with -2^n above the sign bit). *)
 From Coq Require Import ZArith List Bool.
-From FxpVerif Require Import Spec SpecArith NP Store ProofsCore ProofsStore ProofsWrap Arith ProofsArith ProofsExact.
+From FxpVerif Require Import Spec SpecArith NP Store ProofsCore ProofsStore ProofsWrap Arith ProofsArith ProofsExact ProofsExactSum.
 Import ListNotations.
 Open Scope Z_scope.
 
@@ -89,6 +89,22 @@ Theorem C03_wide_product_into_register : forall fx fy cxs cys ft r o,
   = Ok (spec_wres ft r o (map (fun p => exact_codes OpMul fx (fst p) fy (snd p)) (combine cxs cys))).
 Proof. exact mul_into_fewer_fraction_bits. Qed.
 Print Assumptions C03_wide_product_into_register.
+
+(* the same for sums and differences: operands of ANY width, a target with fewer fraction bits than an operand and a sum
+   of more than 53 bits (functions._needs_exact_sum): the exact sum / difference quantized, codes and flags, rounded once *)
+Theorem C03_wide_sum_into_register : forall op fx fy cxs cys ft r o,
+  op <> OpMul -> 1 <= nw fx -> 1 <= nw fy -> 1 <= nw ft -> needs_exact_sum fx fy (nf ft) = true ->
+  cxs <> [] -> length cxs = length cys -> Forall (in_range fx) cxs -> Forall (in_range fy) cys ->
+  arith_raw op fx cxs fy cys ft r o
+  = Ok (spec_wres ft r o (map (fun p => exact_codes op fx (fst p) fy (snd p)) (combine cxs cys))).
+Proof. exact addsub_into_fewer_fraction_bits. Qed.
+Print Assumptions C03_wide_sum_into_register.
+Example C03_wide_sum_nonvacuous :
+  let f := {| sg := true; nw := 60; nf := 20 |} in let t := {| sg := true; nw := 16; nf := 4 |} in
+  needs_exact_sum f f (nf t) = true /\
+  arith_raw OpSub f [2^58 + 2^15 + 1] f [- 2^58 + 1] t Floor Wrap
+  = Ok {| w_codes := [wrap_model true 16 ((2^59 + 2^15) / 2^16)]; w_ovf := true; w_unf := false; w_inacc := true |}.
+Proof. split; vm_compute; reflexivity. Qed.
 
 Example C03_wide_product_nonvacuous :
   let f := {| sg := true; nw := 32; nf := 16 |} in
